@@ -222,6 +222,15 @@ def families(rng):
                 charge=y.charge, sectors=[list(s) for s in y.blocks], data=[b.tolist() for b in y.blocks.values()])
     fams.append(('sub-index structure: fused / flat twin / other sub-indices', [fused0, flat, fused1],
                  [['fuse', [[0, 1]]], ['fuse', [[1, 0]]], ['tdot', [0], [0]], ['unfuse_all'], ['fuse_unfuse', [[0, 1]]]]))
+    # --- pre-fused legs with identical fused tables and sub-indices but different EXTENTS (complementary stored sectors)
+    tb = [[(0, 2), (1, 2)], [(0, 2), (1, 2)], [(0, 1), (1, 1)], [(0, 1), (1, 1)]]
+    dl = [False, False, False, False]
+    sx = [(0, 0, 0, 0), (0, 0, 1, 1), (0, 1, 0, 1), (0, 1, 1, 0)]
+    sy = [(1, 1, 0, 0), (1, 1, 1, 1), (1, 0, 0, 1), (1, 0, 1, 0)]
+    fx = dict(mkspec('Z2', tb, dl, 0, sectors=sx), derive=[['fuse', [[0, 1]]]])
+    fy = dict(mkspec('Z2', tb, dl, 0, sectors=sy), derive=[['fuse', [[0, 1]]]])
+    fams.append(('pre-fused leg: same fused table and sub-indices, complementary extents', [fx, fy],
+                 [['fuse_unfuse', [[1, 2]]], ['fuse', [[1, 2]]], ['fuse_unfuse', [[2, 1]]], ['unfuse_all'], ['tdot', [1, 2], [1, 2]]]))
     return fams
 
 
